@@ -86,6 +86,91 @@ var catalogue = []srDef{
 	{"+proj=lcc +lat_0=0 +lon_0=0 +lat_1=0 +x_0=0 +y_0=0 +datum=WGS84", 5, 5, "bad"},
 }
 
+// pairs of definitions "identical except one parameter SET vs OMITTED": the constructors write first-use
+// defaults for the omitted ones, so NewTransform's "source equals dest -> nil" answer must not depend on
+// whether an SR has been used before.  val = a value different from the default, dflt = the default.
+type optParam struct {
+	base      string
+	lon, lat  float64
+	name      string
+	val, dflt string
+}
+
+var optParams = []optParam{
+	{"+proj=merc +ellps=WGS84 +datum=WGS84", 10, 40, "lon_0", "10", "0"},
+	{"+proj=merc +ellps=WGS84 +datum=WGS84", 10, 40, "x_0", "1000", "0"},
+	{"+proj=merc +ellps=WGS84 +datum=WGS84", 10, 40, "y_0", "2000", "0"},
+	{"+proj=merc +ellps=WGS84 +datum=WGS84", 10, 40, "lat_ts", "30", "0"},
+	{"+proj=merc +ellps=WGS84 +datum=WGS84", 10, 40, "k_0", "0.9", "1"},
+	{"+proj=lcc +lat_1=40 +lat_0=35 +lon_0=-97 +ellps=GRS80 +datum=NAD83", -97, 40, "lat_2", "50", "40"},
+	{"+proj=lcc +lat_1=40 +lat_0=35 +lon_0=-97 +ellps=GRS80 +datum=NAD83", -97, 40, "x_0", "1000", "0"},
+	{"+proj=lcc +lat_1=40 +lat_0=35 +lon_0=-97 +ellps=GRS80 +datum=NAD83", -97, 40, "y_0", "2000", "0"},
+	{"+proj=lcc +lat_1=40 +lat_0=35 +lon_0=-97 +ellps=GRS80 +datum=NAD83", -97, 40, "k_0", "0.99", "1"},
+	{"+proj=utm +zone=33 +datum=WGS84", 15, 50, "lon_0", "9", "15"},
+	{"+proj=utm +zone=33 +datum=WGS84", 15, 50, "lat_0", "5", "0"},
+	{"+proj=utm +zone=33 +datum=WGS84", 15, 50, "x_0", "1000", "500000"},
+	{"+proj=utm +zone=33 +datum=WGS84", 15, 50, "y_0", "5", "0"},
+	{"+proj=utm +zone=33 +datum=WGS84", 15, 50, "k_0", "0.9", "0.9996"},
+	{"+proj=eqdc +lat_0=40 +lon_0=-96 +lat_1=20 +x_0=0 +y_0=0 +datum=WGS84", -96, 40, "lat_2", "60", "20"},
+	{"+proj=krovak +ellps=bessel +towgs84=570.8,85.7,462.8,4.998,1.587,5.261,3.56", 15, 50, "lat_0", "49.5", "49.5"},
+	{"+proj=krovak +ellps=bessel +towgs84=570.8,85.7,462.8,4.998,1.587,5.261,3.56", 15, 50, "lon_0", "24.83333333333333", "24.83333333333333"},
+	{"+proj=tmerc +lon_0=9 +k=1 +x_0=0 +y_0=0 +datum=WGS84", 9, 48, "lat_0", "10", "0"},
+}
+
+// optLine: SR 0 omits the parameter, SR 1 sets it, SR 2 is plain long/lat.  Transformer 0 = (0,2) is
+// called first (the constructor writes SR 0's defaults); the transformers between SR 0 and SR 1 are built
+// afterwards, between calls.
+func (g *histGen) optLine() string {
+	r := g.r
+	o := optParams[r.Intn(len(optParams))]
+	v := o.val
+	if r.Chance(0.35) {
+		v = o.dflt
+	}
+	defs := []string{o.base, o.base + " +" + o.name + "=" + v, "+proj=longlat +datum=WGS84"}
+	if r.Chance(0.3) { // the other way round: SR 0 sets, SR 1 omits
+		defs[0], defs[1] = defs[1], defs[0]
+	}
+	pairs := [][2]int{{0, 2}, {0, 1}, {1, 0}, {2, 0}, {1, 2}}
+	nC := r.Range(3, 10)
+	late := []int{-1, r.Range(1, nC-1), r.Range(1, nC-1), -1, -1}
+	if r.Chance(0.25) {
+		late[1] = -1
+	}
+	var b strings.Builder
+	fmt.Fprintf(&b, "h %d", len(defs))
+	for _, d := range defs {
+		b.WriteString(" " + enc(d))
+	}
+	fmt.Fprintf(&b, " | %d", len(pairs))
+	for _, p := range pairs {
+		fmt.Fprintf(&b, " %d %d", p[0], p[1])
+	}
+	fmt.Fprintf(&b, " | %d", nC)
+	c := srDef{o.base, o.lon, o.lat, "wgs"}
+	for i := 0; i < nC; i++ {
+		t := r.Intn(len(pairs))
+		if i == 0 || late[t] > i {
+			t = 0
+		}
+		x, y := g.input(defs[pairs[t][0]], c)
+		fmt.Fprintf(&b, " %d %s %s", t, vproto.F2H(x), vproto.F2H(y))
+	}
+	nL := 0
+	for _, l := range late {
+		if l >= 0 {
+			nL++
+		}
+	}
+	fmt.Fprintf(&b, " | %d", nL)
+	for k, l := range late {
+		if l >= 0 {
+			fmt.Fprintf(&b, " %d %d", k, l)
+		}
+	}
+	return b.String()
+}
+
 var axes = []string{"wnu", "neu", "esu", "wsu", "nwu", "swd", "end", "enu", "une", "dws", "sed"}
 
 func byClass(c ...string) []int {
@@ -329,5 +414,8 @@ func gen(seed uint64, tier string) {
 	hg := &histGen{r: r}
 	for i := 0; i < nH; i++ {
 		emit(hg.line(i % 9))
+		if i%5 == 0 {
+			emit(hg.optLine())
+		}
 	}
 }
